@@ -48,11 +48,26 @@ func (t Trace) String() string {
 type Env struct {
 	seed    *dbm.MemDB
 	genesis []byte
+	// SeedFailures are the seed messages that failed (none on a correct tree); Digest identifies the
+	// genesis the seed construction produced.
+	SeedFailures []string
+	Digest       string
 }
 
 // NewEnv builds the seed: the prepared state is produced by real messages on
 // a scratch chain, exported, and imported through the real InitChain.
-func NewEnv() *Env {
+func NewEnv() *Env { return NewEnvClock(0) }
+
+// NewEnvClock builds the seed with the wall clock showing the given instant (shim builds only; a plain
+// build sees the real clock). A seed message that fails is recorded, not fatal: whether the seed can be
+// built must not depend on the environment either, and C10Shim compares the two constructions.
+func NewEnvClock(clock int) *Env {
+	if ShimAvailable {
+		setShim(nil, func() time.Time { return clocks[clock%len(clocks)] })
+		defer setShim(nil, nil)
+	}
+	scen.TolerateSeedFailures, scen.SeedFailures = true, nil
+	defer func() { scen.TolerateSeedFailures = false }()
 	sc := chain.New(chain.Options{})
 	// two baskets and two batches in a basket, so that the map-range sites of
 	// both registered invariants see more than one key
@@ -89,7 +104,7 @@ func NewEnv() *Env {
 	c.App.BeginBlock(abci.RequestBeginBlock{Header: hdr})
 	c.App.EndBlock(abci.RequestEndBlock{Height: 1})
 	c.App.Commit()
-	return &Env{seed: db, genesis: g}
+	return &Env{seed: db, genesis: g, SeedFailures: append([]string{}, scen.SeedFailures...), Digest: h(g)}
 }
 
 func copyDB(src *dbm.MemDB) *dbm.MemDB {
